@@ -146,7 +146,29 @@ def impl_env(bdir, threads=None):
     env['OPENBLAS_NUM_THREADS'] = '2'      # BLAS pools of 16 threads only oversubscribe the machine on these sizes
     env['MKL_NUM_THREADS'] = '2'
     env.pop('PYTHONSTARTUP', None)
+    # census of the compiled entry points the workers reach (impl_worker.install_kernel_census); read by the runner
+    env['VERIF_COVER'] = census_path()
     return env
+
+
+def census_path():
+    return os.path.join(VERIF, '.cache', 'census_%d.jsonl' % os.getpid())
+
+
+def read_census():
+    """aggregate and remove this run's census file: {compiled entry point: number of calls}"""
+    tot = {}
+    p = census_path()
+    if os.path.exists(p):
+        for line in open(p):
+            try:
+                d = json.loads(line)
+            except ValueError:
+                continue
+            for k, v in d.items():
+                tot[k] = tot.get(k, 0) + int(v)
+        os.remove(p)
+    return tot
 
 
 def run_impl(bdir, prop, cases, mode='C', threads=None, timeout=1500, pyflags=(), extra_env=None):
